@@ -7,7 +7,8 @@ from seqprop import coverage, replay_file, corpus, audit
 LEVEL = "translation_validation"
 COQ_TARGETS = ("props/C12.vo",)
 THEOREMS = ["C12_frame", "C12_new_keyspace_empty", "C12_delete_changes_no_read", "C12_recreated_name_is_a_new_empty_keyspace",
-            "C12_invariants_with_deletion_and_reopen", "C12_frame_partial", "C12_deleted_refused_partial", "C12_recovered_ids_fresh_partial", "C12_new_keyspace_takes_next_id_partial"]
+            "C12_invariants_with_deletion_and_reopen", "C12_deleted_keyspace_gone_after_reopen",
+            "C12_records_of_deleted_keyspace_ignored", "C12_recovered_keyspaces_are_the_registered_directories", "C12_frame_partial", "C12_deleted_refused_partial", "C12_recovered_ids_fresh_partial", "C12_new_keyspace_takes_next_id_partial"]
 RULE = ("histories over three keyspace names with create / write / delete / re-create, old handles kept and used after "
         "deletion, handles dropped, reopen at random positions, journal records of deleted keyspaces still in the active "
         "journal; after each step name listing, keyspace_exists and full dumps of every keyspace; compared between "
